@@ -112,6 +112,42 @@ func coreOf(tp *types.TypeParam) types.Type {
 			}
 		}
 	}
+	if n > 1 {
+		// a union of channel types of one element type has a (directional) core type
+		var elem types.Type
+		dir := types.SendRecv
+		allChan := true
+		walk := func(t types.Type) {
+			ct, ok := t.Underlying().(*types.Chan)
+			if !ok {
+				allChan = false
+				return
+			}
+			if elem == nil {
+				elem = ct.Elem()
+			} else if !types.Identical(elem, ct.Elem()) {
+				allChan = false
+			}
+			if ct.Dir() != types.SendRecv {
+				dir = ct.Dir()
+			}
+		}
+		for i := 0; i < iface.NumEmbeddeds(); i++ {
+			switch e := iface.EmbeddedType(i).(type) {
+			case *types.Union:
+				for j := 0; j < e.Len(); j++ {
+					walk(e.Term(j).Type())
+				}
+			default:
+				if _, isIface := e.Underlying().(*types.Interface); !isIface {
+					walk(e)
+				}
+			}
+		}
+		if allChan && elem != nil {
+			return types.NewChan(dir, elem)
+		}
+	}
 	if n == 1 {
 		switch found.Underlying().(type) {
 		case *types.Slice, *types.Map, *types.Pointer, *types.Chan, *types.Signature:
